@@ -123,7 +123,7 @@ Qed.
 
 Lemma step_sim : forall m o, mem_bytes m -> forallb valid_name (op_names o) = true ->
   let (d', r) := fs_step false (enc_mem m) o in
-  let (m', r') := mem_step m o in
+  let (m', r') := mem_step false m o in
   r = r' /\ d' = enc_mem m' /\ mem_bytes m'.
 Proof.
   intros m o Hm Hv. destruct o as [n k|n|n|n|]; cbn [op_names forallb] in Hv;
@@ -145,22 +145,22 @@ Proof.
 Qed.
 
 Lemma run_sim : forall ops m, mem_bytes m -> valid_ops ops = true ->
-  snd (fs_run false (enc_mem m) ops) = snd (mem_run m ops) /\
-  fst (fs_run false (enc_mem m) ops) = enc_mem (fst (mem_run m ops)).
+  snd (fs_run false (enc_mem m) ops) = snd (mem_run false m ops) /\
+  fst (fs_run false (enc_mem m) ops) = enc_mem (fst (mem_run false m ops)).
 Proof.
   induction ops as [|o ops IH]; intros m Hm Hv; [split; reflexivity|].
   cbn [valid_ops forallb] in Hv. apply andb_true_iff in Hv. destruct Hv as [Hv1 Hv2].
   pose proof (step_sim m o Hm Hv1) as Hs. cbn [fs_run mem_run].
-  destruct (fs_step false (enc_mem m) o) as [d' r]. destruct (mem_step m o) as [m' r'].
+  destruct (fs_step false (enc_mem m) o) as [d' r]. destruct (mem_step false m o) as [m' r'].
   destruct Hs as (Hr & Hd & Hm'). subst d' r'.
   specialize (IH m' Hm' Hv2).
-  destruct (fs_run false (enc_mem m') ops) as [d'' rs]. destruct (mem_run m' ops) as [m'' rs'].
+  destruct (fs_run false (enc_mem m') ops) as [d'' rs]. destruct (mem_run false m' ops) as [m'' rs'].
   cbn [fst snd] in *. destruct IH as [IH1 IH2]. subst. split; reflexivity.
 Qed.
 
 Theorem fs_refines_mem : forall ops, valid_ops ops = true ->
-  snd (fs_run false [] ops) = snd (mem_run [] ops) /\
-  fst (fs_run false [] ops) = enc_mem (fst (mem_run [] ops)).
+  snd (fs_run false [] ops) = snd (mem_run false [] ops) /\
+  fst (fs_run false [] ops) = enc_mem (fst (mem_run false [] ops)).
 Proof. intros ops Hv. apply (run_sim ops [] (Forall_nil _) Hv). Qed.
 
 (** ---------- confinement: whatever the operations and names, only safe single components are used ---------- *)
@@ -198,5 +198,5 @@ Qed.
 (** ---------- the defect ---------- *)
 Theorem delete_missing_refuted :
   valid_ops [Del [97]] = true /\
-  snd (fs_run true [] [Del [97]]) = [ROther] /\ snd (mem_run [] [Del [97]]) = [ROk].
+  snd (fs_run true [] [Del [97]]) = [ROther] /\ snd (mem_run true [] [Del [97]]) = [ROk].
 Proof. vm_compute. repeat split; reflexivity. Qed.
